@@ -48,6 +48,19 @@ def _is_self_attr(e, attr):
     return isinstance(e, ast.Attribute) and isinstance(e.value, ast.Name) and e.value.id == 'self' and e.attr == attr
 
 
+def _precedes(fn, a, b):
+    """statement a is executed before statement b on the straight-line order of the function (pre-order position)"""
+    order = [n for n in ast.walk(fn.node)]
+    pos = {id(n): i for i, n in enumerate(_preorder(fn.node))}
+    return pos.get(id(a), 0) < pos.get(id(b), 0)
+
+
+def _preorder(node):
+    yield node
+    for c in ast.iter_child_nodes(node):
+        yield from _preorder(c)
+
+
 def presets(repo, chk):
     fn = repo.func(RT, f'{CLS}.__init__')
     m = fn.module
@@ -60,9 +73,27 @@ def presets(repo, chk):
     lp = loops[0]
     ns = lp.target.id
     chk.ok('C12.1a', 'R13', fn.site(lp), ast.unparse(lp.iter), 'every name of the comma-separated list is visited')
-    assigns = [n for n in own_nodes(fn.node) if isinstance(n, (ast.Assign, ast.AnnAssign)) and any(_is_self_attr(t, 'transformer_collection') for t in (n.targets if isinstance(n, ast.Assign) else [n.target])) and n.value is not None]
+    # the collection object: self.transformer_collection, or a local that is finally bound to it (collected = dict(); ...; self.transformer_collection = collected)
+    coll_names = set()
+    changed = True
+    while changed:
+        changed = False
+        for n in own_nodes(fn.node):
+            if isinstance(n, (ast.Assign, ast.AnnAssign)) and n.value is not None and isinstance(n.value, ast.Name):
+                tgs = n.targets if isinstance(n, ast.Assign) else [n.target]
+                if any(_is_self_attr(t, 'transformer_collection') or (isinstance(t, ast.Name) and t.id in coll_names) for t in tgs) and n.value.id not in coll_names and n.value.id not in fn.params:
+                    coll_names.add(n.value.id)
+                    changed = True
+
+    def is_coll(e):
+        return _is_self_attr(e, 'transformer_collection') or (isinstance(e, ast.Name) and e.id in coll_names)
+
+    def mentions_coll(txt):
+        return 'self.transformer_collection' in txt or any(re.search(rf'\b{re.escape(c)}\b', txt) for c in coll_names)
+    assigns = [n for n in own_nodes(fn.node) if isinstance(n, (ast.Assign, ast.AnnAssign)) and any(is_coll(t) for t in (n.targets if isinstance(n, ast.Assign) else [n.target])) and n.value is not None
+               and not (isinstance(n.value, ast.Name) and n.value.id in coll_names)]
     inside = [a for a in assigns if any(x is a for x in ast.walk(lp))]
-    before = [a for a in assigns if a not in inside and a.lineno < lp.lineno]
+    before = [a for a in assigns if a not in inside and not any(x is a for x in ast.walk(lp)) and _precedes(fn, a, lp)]
     sub_names = set()
     for n in ast.walk(lp):
         if isinstance(n, ast.Assign) and isinstance(n.targets[0], ast.Name) and '_tr_global_namespace' in ast.unparse(n.value):
@@ -76,7 +107,7 @@ def presets(repo, chk):
 
     def self_merge(v):
         txt = ast.unparse(v)
-        refs_self = 'self.transformer_collection' in txt
+        refs_self = mentions_coll(txt)
         refs_sub = any(re.search(rf'\b{re.escape(s)}\b', txt) for s in sub_names)
         fresh = isinstance(v, ast.Dict) or (isinstance(v, ast.Call) and isinstance(v.func, ast.Name) and v.func.id == 'dict') or (isinstance(v, ast.BinOp) and isinstance(v.op, ast.BitOr))
         return refs_self and refs_sub and fresh
@@ -84,18 +115,22 @@ def presets(repo, chk):
     for a in inside:
         if self_merge(a.value):
             chk.ok('C12.1c', 'R13', fn.site(a), ast.unparse(a).replace('\n', ' ')[:120], 'merge keeps what earlier presets contributed and builds a fresh dict')
-        elif fresh_empty(a.value) or 'self.transformer_collection' not in ast.unparse(a.value):
+        elif fresh_empty(a.value) or not mentions_coll(ast.unparse(a.value)):
             chk.bad('C12.1c', 'R13', fn.site(a), ast.unparse(a).replace('\n', ' ')[:120], 'the collection is (re-)initialised inside the loop over the preset names: only the last preset of a list survives (or a vault dict is aliased and later mutated)')
         else:
             chk.unsure('C12.1c', 'R13', fn.site(a), ast.unparse(a)[:120], 'unrecognised update of the collection inside the preset loop')
-    updates = [c for c in ast.walk(lp) if isinstance(c, ast.Call) and isinstance(c.func, ast.Attribute) and c.func.attr == 'update' and _is_self_attr(c.func.value, 'transformer_collection')]
+    updates = [c for c in ast.walk(lp) if isinstance(c, ast.Call) and isinstance(c.func, ast.Attribute) and c.func.attr == 'update' and is_coll(c.func.value)]
+    for c in updates:
+        # merging by .update(<preset>) is fine on a fresh dict of our own (the vault dict is only read)
+        ok_u = len(c.args) == 1 and isinstance(c.args[0], ast.Name) and c.args[0].id in sub_names
+        chk.expect(ok_u, 'C12.1c', 'R13', fn.site(c), ast.unparse(c)[:120], 'the preset is merged into the collection (the vault dict is only read)', 'the update of the collection does not merge the preset that was looked up', soft=True)
     chk.expect(len(before) == 1 and fresh_empty(before[0].value), 'C12.1d', 'R13', fn.site(before[0]) if before else fn.site(), ast.unparse(before[0]) if before else 'self.transformer_collection = dict()',
                'the collection starts as a fresh empty dict before the loop', 'the collection must be initialised exactly once, before the loop, to a fresh empty dict')
     chk.expect(bool(inside) or bool(updates), 'C12.1e', 'R13', fn.site(lp), 'merge of each preset', 'each preset is merged', 'presets are not merged into the collection')
     # no vault dictionary may be mutated anywhere in the class module
     for f in m.funcs.values():
         for n in own_nodes(f.node):
-            if isinstance(n, ast.Assign) and any(_is_self_attr(t, 'transformer_collection') for t in n.targets) and isinstance(n.value, ast.Name) and n.value.id in sub_names:
+            if isinstance(n, ast.Assign) and any(_is_self_attr(t, 'transformer_collection') or (isinstance(t, ast.Name) and f is fn and t.id in coll_names) for t in n.targets) and isinstance(n.value, ast.Name) and n.value.id in sub_names:
                 chk.bad('C12.1f', 'R11', f.site(n), ast.unparse(n), 'the collection aliases a vault dictionary: merging further presets into it mutates the global preset for every later transformer in the process')
     # the vault's name table
     v = repo.mod(VAULT)
@@ -127,15 +162,6 @@ def keep_drop(repo, chk):
         chk.unsure('C12.2', 'R14', fn.site(), 'new_columns[name] = transformed_array', f'{len(emits)} emission sites found')
         return
     em = emits[0]
-    arr = em.value.id if isinstance(em.value, ast.Name) else ast.unparse(em.value)
-    cfg = CFG(fn.node)
-    node = cfg.node_of(em)
-    guards = [g for g in cfg.nodes if g.kind == 'branch' and g.test is not None and cfg.dominates(g.id, node.id) and isinstance(g.ast, ast.If)]
-    if not guards:
-        chk.bad('C12.2', 'R14', fn.site(em), ast.unparse(em), 'transformed columns are emitted unconditionally: degenerate ones are not dropped')
-        return
-    # conjuncts of all dominating guards (positive polarity)
-    guards = [g for g in guards if not (g.polarity is False and any(isinstance(s, ast.Raise) for s in g.ast.body))]
 
     def subst(t):
         if isinstance(t, tuple):
@@ -143,46 +169,116 @@ def keep_drop(repo, chk):
                 return ('num', consts[t[2]])
             return tuple(subst(x) for x in t)
         return t
-    E = lambda s: subst(expected_term(m, s))
-    uniq = f'numpy.unique({arr}, return_counts=True)'
-    arrdef = [d for d in own_nodes(fn.node) if isinstance(d, ast.Assign) and isinstance(d.targets[0], ast.Name) and d.targets[0].id == arr]
-    A = ast.unparse(arrdef[0].value) if len(arrdef) == 1 else arr
-    if not isinstance(em.value, ast.Name):
-        # inline single-definition locals of the emitted expression by hand
-        A = show_src(fn, em.value)
-    uniq = f'numpy.unique({A}, return_counts=True)'
-    want = {
-        'distinct': [E(f'len({uniq}[0]) > 1'), E(f'len(numpy.unique({A})) > 1')],
-        'majority': [E(f'numpy.divide(numpy.max({uniq}[1]), numpy.sum({uniq}[1])) < 0.8'), E(f'numpy.max({uniq}[1]) / numpy.sum({uniq}[1]) < 0.8'), E(f'numpy.max({uniq}[1]) / len({A}) < 0.8')],
-        'nan': [E(f"numpy.count_nonzero({A} == 'nan') / len({A}) < 0.75"), E(f"numpy.sum({A} == 'nan') / len({A}) < 0.75"), E(f"numpy.mean({A} == 'nan') < 0.75")],
-    }
-    # tuple-unpacked u, c = np.unique(...): inline manually
-    unp = [d for d in own_nodes(fn.node) if isinstance(d, ast.Assign) and isinstance(d.targets[0], ast.Tuple) and isinstance(d.value, ast.Call) and m.dotted(d.value.func) == 'numpy.unique']
-    bound = {}
-    if unp:
-        ut = Canon(m, Scope(fn), inline=True).t(unp[0].value)
-        for i, e in enumerate(unp[0].targets[0].elts):
-            if isinstance(e, ast.Name):
-                bound[e.id] = ('sub', ut, ('num', i))
-    conj = []
-    for g in guards:
-        cn = Canon(m, Scope(fn), inline=True, bound=bound)
-        t = cn.t(g.test)
-        if g.polarity is False:
-            t = cn._not(t)
-        conj += list(t[1]) if t[0] == 'and' else [t]
-    conj = [subst(c) for c in conj]
+    # one transformer applied to one column, path by path: which atomic tests decide whether the column is emitted
+    from ..match import run_paths
+    par0 = parents(fn.node)
+    tl = par0.get(em)
+    while tl is not None and not (isinstance(tl, ast.For) and 'transformer_collection' in ast.unparse(tl.iter)):
+        tl = par0.get(tl)
+    if tl is None:
+        chk.unsure('C12.2', 'R14', fn.site(em), ast.unparse(em), 'the loop over the transformer collection that contains the emission was not found')
+        return
+    paths = run_paths(fn, None, None, max_forks=6, body=tl.body)
+    if paths is None:
+        chk.unsure('C12.2', 'R14', fn.site(tl), 'for name, formula in self.transformer_collection.items()', 'too many undecidable tests in the per-transformer body')
+        return
     labels = {'distinct': 'more than one distinct value (len(unique) > 1)', 'majority': 'most frequent value covers < 80 % (max(c)/sum(c) < 0.80)', 'nan': "less than 75 % NaN (count('nan')/len < 0.75)"}
-    used = set()
-    for key, forms in want.items():
-        hit = [c for c in conj if c in forms]
-        if hit:
-            used.add(repr(hit[0]))
-            chk.ok(f'C12.2-{key}', 'R14', fn.site(guards[0].ast), labels[key], 'condition present with the stated relation and threshold')
+    cn = Canon(m, Scope(None), inline=False)
+    verdict = {k: None for k in labels}
+    extra_atoms = []
+    emit_paths = 0
+    unknown = None
+    A_term = None
+    for assume, res in paths:
+        if res.unknown is not None:
+            unknown = unknown or res.unknown
+            continue
+        stores = [u for u in res.updates if u['kind'] == 'store1' and isinstance(u['target'], ast.Name) and isinstance(em.targets[0].value, ast.Name) and u['target'].id == em.targets[0].value.id]
+        if stores and A_term is None:
+            A_term = term_of(fn, stores[0]['value'], inline=False)
+    if A_term is None:
+        if unknown is not None:
+            chk.unsure('C12.2', 'R14', fn.site(unknown), ast.unparse(unknown)[:80], 'a statement outside the path vocabulary in the per-transformer body')
         else:
-            chk.bad(f'C12.2-{key}', 'R14', fn.site(guards[0].ast), ast.unparse(guards[0].test).replace('\n', ' ')[:200], f'keep rule must require {labels[key]}; conjuncts found: {[show(c)[:90] for c in conj]}')
-    extra = [c for c in conj if repr(c) not in used]
-    chk.expect(not extra, 'C12.2-only', 'R14', fn.site(guards[0].ast), ast.unparse(guards[0].test).replace('\n', ' ')[:200], 'no further condition decides emission', f'additional condition(s) decide emission: {[show(c)[:90] for c in extra]}')
+            chk.bad('C12.2', 'R14', fn.site(em), ast.unparse(em), 'no path of the per-transformer body emits the transformed column')
+        return
+    Asrc = None
+    for assume, res in paths:
+        for u in res.updates:
+            if u['kind'] == 'store1' and term_of(fn, u['value'], inline=False) == A_term:
+                Asrc = ast.unparse(u['value'])
+    E = lambda src: subst(expected_term(m, src))
+    uniq = f'numpy.unique({Asrc}, return_counts=True)'
+    want = {
+        'distinct': [E(f'len({uniq}[0]) > 1'), E(f'len(numpy.unique({Asrc})) > 1'), E(f'{uniq}[0].size > 1'), E(f'len({uniq}[0]) >= 2'), E(f'numpy.unique({Asrc}).size > 1')],
+        'majority': [E(f'numpy.divide(numpy.max({uniq}[1]), numpy.sum({uniq}[1])) < 0.8'), E(f'numpy.max({uniq}[1]) / numpy.sum({uniq}[1]) < 0.8'), E(f'numpy.max({uniq}[1]) / len({Asrc}) < 0.8'),
+                     E(f'{uniq}[1].max() / {uniq}[1].sum() < 0.8'), E(f'numpy.max({uniq}[1]) / {uniq}[1].sum() < 0.8')],
+        'nan': [E(f"numpy.count_nonzero({Asrc} == 'nan') / len({Asrc}) < 0.75"), E(f"numpy.sum({Asrc} == 'nan') / len({Asrc}) < 0.75"), E(f"numpy.mean({Asrc} == 'nan') < 0.75")],
+    }
+
+    def classify(t_ast, v):
+        t = subst(term_of(fn, t_ast, inline=False))
+        if t[0] == 'call' and t[1] == ('name', 'bool') and len(t[2]) == 1:
+            t = t[2][0]
+        for key, forms in want.items():
+            if t in forms:
+                return key, v
+            if cn._not(t) in forms:
+                return key, (not v)
+        return 'other', (t, v, t_ast)
+    bad_emit = None
+    for assume, res in paths:
+        if res.unknown is not None:
+            continue
+        emits_here = any(u['kind'] == 'store1' and term_of(fn, u['value'], inline=False) == A_term for u in res.updates)
+        dec = {}
+        others = []
+        for t_ast, v in res.assumed:
+            k, val = classify(t_ast, v)
+            if k == 'other':
+                others.append(val)
+            else:
+                dec[k] = val
+        if emits_here:
+            emit_paths += 1
+            for k in labels:
+                if dec.get(k) is True:
+                    verdict[k] = verdict[k] if verdict[k] is False else True
+                else:
+                    verdict[k] = False
+            extra_atoms += others
+        else:
+            # a path that does not emit must fail one of the three conditions (or an unrelated test that ends it, reported as extra)
+            if not any(val is False for val in dec.values()):
+                if others:
+                    extra_atoms += others
+                elif res.ended not in ('raise',):
+                    bad_emit = bad_emit or res
+    site = fn.site(tl)
+    conj_txt = sorted({ast.unparse(t_ast)[:80] for _, res in paths for t_ast, _ in res.assumed})
+    for key in labels:
+        if verdict[key] is True:
+            chk.ok(f'C12.2-{key}', 'R14', site, labels[key], 'condition present with the stated relation and threshold')
+        elif unknown is not None and emit_paths == 0:
+            chk.unsure(f'C12.2-{key}', 'R14', fn.site(unknown), ast.unparse(unknown)[:80], 'a statement outside the path vocabulary in the per-transformer body')
+        else:
+            in_vocab = True
+            from ..match import within_vocabulary
+            all_forms = [f for fs in want.values() for f in fs]
+            in_vocab = all(within_vocabulary(subst(term_of(fn, t_ast, inline=False)), all_forms) for _, res in paths for t_ast, _ in res.assumed)
+            if in_vocab:
+                chk.bad(f'C12.2-{key}', 'R14', site, '; '.join(conj_txt)[:200], f'keep rule must require {labels[key]}; tests found: {conj_txt}')
+            else:
+                chk.unsure(f'C12.2-{key}', 'R14', site, '; '.join(conj_txt)[:200], f'the tests that decide emission use operations outside the vocabulary of the accepted forms; keep rule must require {labels[key]}')
+    extra_real = [x for x in extra_atoms if not any(x[0] in fs or cn._not(x[0]) in fs for fs in want.values())]
+    if extra_real and all(v for v in verdict.values()):
+        chk.bad('C12.2-only', 'R14', fn.site(extra_real[0][2]) if hasattr(extra_real[0][2], 'lineno') else site, ast.unparse(extra_real[0][2])[:160], f'additional condition(s) decide emission: {[show(x[0])[:90] for x in extra_real[:3]]}')
+    elif not extra_real:
+        chk.ok('C12.2-only', 'R14', site, f'{emit_paths} emitting path(s)', 'no further condition decides emission')
+    if bad_emit is not None:
+        chk.bad('C12.2', 'R14', site, 'a path that satisfies the three conditions does not emit the column', 'a transformed column that passes the keep rule is not emitted on every path')
+    arrdef = []
+    A = Asrc
     # 6: name and values
     key = em.targets[0].slice
     kt = term_of(fn, key, inline=True)
@@ -352,6 +448,13 @@ class MiniEval:
                 return dict(self.ev(e.args[0], env)) if e.args else {}
             if d in ('numpy.divide', 'numpy.true_divide') and len(e.args) == 2:
                 return self.ev(e.args[0], env) / self.ev(e.args[1], env)
+            if d in ('itertools.product',) and not e.keywords:
+                import itertools
+                return [tuple(x) for x in itertools.product(*[list(self.ev(a, env)) for a in e.args])]
+            if d in ('itertools.chain',) and not e.keywords:
+                return [x for a in e.args for x in self.ev(a, env)]
+            if isinstance(e.func, ast.Name) and e.func.id == 'zip' and not e.keywords:
+                return [tuple(x) for x in zip(*[list(self.ev(a, env)) for a in e.args])]
             if isinstance(e.func, ast.Name) and e.func.id == 'range':
                 return list(range(*[self.ev(a, env) for a in e.args]))
             if isinstance(e.func, ast.Name) and e.func.id in ('list', 'tuple', 'sorted') and len(e.args) == 1:
